@@ -1,3 +1,4 @@
+import ChipFiring.Theory.Txt
 import ChipFiring.Theory.OrientRT
 import ChipFiring.Theory.Serial
 import Std.Data.String.ToInt
@@ -110,5 +111,24 @@ theorem orientation_dict_roundtrip (G : Graph n) (hG : G.WF) (o : Orient n) (hin
     ∃ o', Orient.new G (ps.map fun p => (p.1.1, p.2.1)) = .ok o' ∧
       (∀ x y, o'.st x y = o.st x y) ∧ (∀ v, o'.inD v = o.inD v) ∧ (∀ v, o'.outD v = o.outD v) :=
   CF.orientation_dict_roundtrip G hG o hinv ps hnd hps
+
+/-- **TXT field layer**: a record line `PREFIX: f1, f2, …` written with `', '.join` and read back
+    with `[p.strip() for p in rest.split(',')]` returns exactly the fields, for every list of ≥ 1
+    fields that contain no comma and that `strip()` leaves alone (no leading/trailing white space in
+    Python's sense) — the names "the line-oriented TXT format can represent" (the colon is excluded
+    separately because the reader removes the prefix with `str.replace`).  `joinFields`,
+    `splitOn`, `stripPy` are compared with Python's own `join` / `split` / `strip` on generated
+    (also hostile) strings in the correspondence run. -/
+theorem txt_fields_roundtrip (fs : List (List Char)) (hne : fs ≠ [])
+    (hclean : ∀ f ∈ fs, Txt.cleanField f = true) :
+    Txt.parseFields (' ' :: Txt.joinFields fs) = fs := by
+  apply Txt.parse_join fs hne
+  intro f hf
+  have := hclean f hf
+  simp only [Txt.cleanField, Bool.and_eq_true, Bool.not_eq_true', beq_iff_eq] at this
+  refine ⟨fun c hc he => ?_, this.2⟩
+  subst he
+  have : f.contains ',' = true := List.contains_iff_mem.mpr hc
+  simp_all
 
 end CF.C15
